@@ -15,8 +15,15 @@ Oracle.  `classify()` decides from the *input alone* (values, dtype, explicit
 parameters of the first encoding) whether the chain is able to represent the
 input.  If it is ("must"), encode->decode has to succeed and return the input
 (exactly; FixedPoint within half a step, IntervalQuantization by the interval
-rules).  If it is not ("may"), the only accepted outcomes are an exception or
-an exact round trip of the offending values.
+rules).  If it is not ("may"), the only accepted outcomes are an exception (of any
+type) or an exact round trip of the offending values.  "may" also covers what the
+documentation leaves open: an explicit type that is not the dtype of the array, a
+Delta step beyond int32, values outside the interval of an IntervalQuantization -
+there the result, if one is returned, is judged by the same rules as for "must".
+
+Optional key "layout": "plain" (default) | "strided" | "readonly" | "be" (big-endian copy) |
+"f16" (float16 copy of float32 data whose values are float16 numbers): the memory layout /
+byte order of the array that is handed to encode(); the values are the same.
 """
 
 import io
@@ -56,8 +63,8 @@ LIMITS = [
     2**32 - 2, 2**32 - 1, 2**32, 2**63 - 1, -(2**63), 2**64 - 1,
 ]  # fmt: skip
 BOUNDARY_SET = frozenset(LIMITS) - {0, 1, -1, 2}
-REJECTIONS = (ValueError, IndexError, OverflowError, TypeError)
-REJECTION_NAMES = {"ValueError", "IndexError", "OverflowError", "TypeError"}
+# "rejected" is all the property promises for input a representation cannot hold: every
+# exception type counts (the type that occurred is recorded as a label)
 UNREP = "unrepresentable_rejected_or_lossless"
 STRING_POOL = ["", "a", "b", "ab", "A", " ", "a b", "é", "ü", "ß", "汉字", "😀", "αβγ", "x" * 17, "0", "-1", ".", "?", "a'b", 'q"', "\t", "é"]
 
@@ -109,6 +116,54 @@ def mk_array(kind, dtype, segs, rows=None):
             return np.array([], dtype="U1")
         return np.array(vals, dtype="U")
     raise ValueError(kind)
+
+
+LAYOUTS = ("plain", "strided", "readonly", "be", "f16")
+
+
+def apply_layout(x, layout):
+    """The same values in another memory layout / byte order (what is handed to biotite)."""
+    if layout in (None, "plain"):
+        return x
+    if layout == "strided":
+        buf = np.empty(2 * len(x) + 1, dtype=x.dtype)
+        if x.dtype.kind == "U":
+            buf[:] = ""
+        else:
+            buf[:] = 0
+        view = buf[1::2]
+        view[:] = x
+        return view
+    if layout == "readonly":
+        y = x.copy()
+        y.flags.writeable = False
+        return y
+    if layout == "be":
+        return x.astype(x.dtype.newbyteorder(">"))
+    if layout == "f16":
+        return x.astype(np.float16)
+    raise ValueError(layout)
+
+
+def layout_allowed(layout, kind, dtype):
+    if layout in (None, "plain", "strided", "readonly"):
+        return True
+    if layout == "be":
+        # 8-byte integers in non-native byte order: candidate finding (KeyError from TypeCode.from_dtype),
+        # see notes/audit/C05_applied.md - kept out of the generators
+        return kind in ("int", "float") and dtype not in ("int64", "uint64")
+    if layout == "f16":
+        return kind == "float" and dtype == "float32"
+    return False
+
+
+def st_layout(kind, dtype, f16=False, be=True):
+    opts = ["plain"] * 12 + ["strided", "strided", "readonly", "readonly"]
+    if be and layout_allowed("be", kind, dtype):
+        opts += ["be", "be"]
+    if f16 and layout_allowed("f16", kind, dtype):
+        opts += ["f16"] * 5
+    return st.sampled_from(opts)
 
 
 def mk_enc(spec):
@@ -222,6 +277,15 @@ def _decreasing(vals, origin=None):
     return any(not (0 <= b - a <= I32_MAX) for a, b in zip(seq, seq[1:]))
 
 
+def _step_outside_int32(vals, origin=None, margin=0):
+    """A Delta step (the first one is taken against the origin) that no int32 can hold.  biotite
+    lets such steps wrap modulo 2**32 (exact today); refusing them is just as legitimate."""
+    if not vals:
+        return False
+    seq = [vals[0] if origin is None else origin] + list(vals)
+    return any(not (I32_MIN + margin <= b - a <= I32_MAX - margin) for a, b in zip(seq, seq[1:]))
+
+
 def _fits(vals, tname):
     lo, hi = RANGE[tname]
     return all(lo <= v <= hi for v in vals)
@@ -275,10 +339,16 @@ def classify(case, x):
                 may("float_type_on_int")
             elif not _fits(vals, U):
                 may("bytes_out_of_range")
+            elif np.dtype(U) != np.dtype(S):
+                # `type` is documented as "the data type of the array to be encoded": a different
+                # type is outside the documented contract, even if the values happen to fit
+                may("explicit_type_is_not_data_type")
         elif first == "rle":
             U = p.get("src_type") or S
             if not _fits(vals, U):
                 may("rle_out_of_range")
+            elif np.dtype(U) != np.dtype(S):
+                may("explicit_type_is_not_data_type")
             if p.get("src_size") is not None and p["src_size"] != n:
                 may("wrong_src_size")
         elif first == "delta":
@@ -294,6 +364,9 @@ def classify(case, x):
             origin = p.get("origin")
             if origin is not None and not (RANGE[T][0] <= origin <= RANGE[T][1]):
                 may("origin_out_of_range")
+            if _step_outside_int32(vals, origin):
+                # a difference the int32 output cannot hold: wrap-around (exact) or refusal
+                may("delta_step_outside_int32")
         elif first == "pack":
             if not _fits(vals, "int32"):
                 may("pack_out_of_int32", "C05-F3")
@@ -306,6 +379,9 @@ def classify(case, x):
         else:
             may("wrong_kind_for_" + first)
     elif kind == "float":
+        if first in ("fixed", "interval") and p.get("src_type") not in (None, case["dtype"]):
+            # src_type: "the data type of the array to be encoded"
+            may("explicit_type_is_not_data_type")
         if first == "fixed":
             cls = _fixed_classes(x, p["factor"], p.get("src_type"))
             res["elem"] = cls
@@ -313,11 +389,24 @@ def classify(case, x):
                 may("fixed_point_unrepresentable", "C05-F1")
             elif np.any(cls == 0):
                 may("fixed_point_borderline")
+            if len(chain) > 1 and chain[1][0] == "delta":
+                with np.errstate(all="ignore"):
+                    img = np.round(x.astype(np.float64) * float(p["factor"]))
+                img = [int(v) for v in img[np.isfinite(img)].tolist()]
+                # (margin: the encoder may compute the image in float32)
+                if _step_outside_int32(img, margin=1024):
+                    may("delta_step_outside_int32")
         elif first == "interval":
-            cls = np.where(np.isnan(x), -1, 1)
+            # 2 = outside [min, max] (or infinite): the docstring does not say what happens to such
+            # values - clamping (BinaryCIF), refusing and keeping them are all accepted
+            with np.errstate(all="ignore"):
+                outside = (x < p["min"]) | (x > p["max"]) | np.isinf(x)
+            cls = np.where(np.isnan(x), -1, np.where(outside, 2, 1))
             res["elem"] = cls
             if np.any(cls == -1):
                 may("interval_nan", "C05-F4")
+            if np.any(cls == 2):
+                may("interval_outside_range")
         elif first == "bytes":
             U = p.get("type") or case["dtype"]
             if U in INT_TYPES:
@@ -328,6 +417,10 @@ def classify(case, x):
                 res["elem"] = np.where(over, -1, 1)
                 if np.any(over):
                     may("float32_overflow", "C05-F5")
+                may("explicit_type_is_not_data_type")
+            elif U != case["dtype"]:
+                res["elem"] = np.ones(n, dtype=int)
+                may("explicit_type_is_not_data_type")
         else:
             may("wrong_kind_for_" + first)
     elif kind == "str":
@@ -339,6 +432,10 @@ def classify(case, x):
                 may("strings_not_unique")
         else:
             may("wrong_kind_for_" + first)
+    if case.get("layout") in ("be", "f16") and layout_allowed(case["layout"], kind, case["dtype"]):
+        # non-native byte order and float16 are handled by TypeCode.from_dtype, but no docstring promises
+        # them: a refusal is accepted, a returned array is judged as usual
+        may("input_form_" + case["layout"])
     return res
 
 
@@ -351,9 +448,11 @@ def _is_chain_case(case):
     return isinstance(case, dict) and "chain" in case and "segs" in case
 
 
-def _pred(fid, want_clause=UNREP):
+def _pred(fid, *want_clauses):
+    want_clauses = want_clauses or (UNREP,)
+
     def pred(sub, case, clause, message):
-        return clause == want_clause and _is_chain_case(case) and finding_of(case) == fid
+        return clause in want_clauses and _is_chain_case(case) and finding_of(case) == fid
 
     return pred
 
@@ -364,7 +463,9 @@ FINDINGS = {
     "packing_input_outside_int32": _pred("C05-F3"),
     "interval_quantization_nan": _pred("C05-F4"),
     "bytearray_float64_to_float32_overflow": _pred("C05-F5"),
-    "delta_uint64_decreasing": _pred("C05-F6", "int_roundtrip_exact"),
+    # (a uint64 array that also holds a step beyond int32 is of class "may": the same defect then
+    # shows under the clause of that class)
+    "delta_uint64_decreasing": _pred("C05-F6", "int_roundtrip_exact", UNREP),
 }
 
 
@@ -373,12 +474,16 @@ FINDINGS = {
 # --------------------------------------------------------------------------
 def _bits(a):
     a = np.ascontiguousarray(a)
-    return a.view(np.uint32 if a.dtype.itemsize == 4 else np.uint64)
+    if not a.dtype.isnative:
+        a = a.astype(a.dtype.newbyteorder("="))
+    return a.view({2: np.uint16, 4: np.uint32, 8: np.uint64}[a.dtype.itemsize])
 
 
 def _same_float_bits(a, b):
     """Bit identical (NaN payloads aside: any NaN equals any NaN)."""
-    if a.shape != b.shape or a.dtype.itemsize != b.dtype.itemsize:
+    a = np.asarray(a)
+    b = np.asarray(b)
+    if a.shape != b.shape or a.dtype.itemsize != b.dtype.itemsize or a.dtype.kind != "f" or b.dtype.kind != "f":
         return False
     nan = np.isnan(a) & np.isnan(b)
     return bool(np.all(nan | (_bits(a) == _bits(b))))
@@ -400,7 +505,11 @@ def _compare_int(o, case, x, y, clause):
         clause,
         lambda: f"{chain_sig(case['chain'])} on {case['dtype']} {x.tolist()!r:.300} -> {np.asarray(y).tolist()!r:.300}",
     )
-    if ok:
+    if ok and case["chain"][0][0] == "pack":
+        # IntegerPacking works on "32-bit integers" (docstring); signed or unsigned is not stated
+        o.check(y.dtype.kind in "iu" and y.dtype.itemsize == 4, clause, lambda: f"decoded dtype {y.dtype}, IntegerPacking is documented for 32-bit integers")
+        o.label("decoded=" + ("int32" if y.dtype.kind == "i" else "uint32"))
+    elif ok:
         want = np.dtype(_expected_int_dtype(case))
         o.check(
             y.dtype.kind == want.kind and y.dtype.itemsize == want.itemsize,
@@ -410,9 +519,18 @@ def _compare_int(o, case, x, y, clause):
     return ok
 
 
+def _str_values(y):
+    """The strings held by an array of any NumPy string representation ('U', StringDType, object)."""
+    y = np.asarray(y)
+    if y.dtype.kind not in "UTO":
+        return None
+    vals = y.tolist()
+    return vals if all(isinstance(v, str) for v in vals) else None
+
+
 def _compare_str(o, case, x, y, clause):
     return o.check(
-        isinstance(y, np.ndarray) and y.dtype.kind == "U" and y.tolist() == x.tolist(),
+        isinstance(y, np.ndarray) and y.shape == x.shape and _str_values(y) == x.tolist(),
         clause,
         lambda: f"{chain_sig(case['chain'])} on {x.tolist()!r:.300} -> {np.asarray(y).tolist()!r:.300}",
     )
@@ -437,7 +555,7 @@ def _compare_float(o, case, x, y, cls):
         same = (math.isnan(xs[i]) and math.isnan(ys[i])) or xs[i] == ys[i]
         o.check(same, UNREP, lambda i=i: f"{chain_sig(case['chain'])} {p}: element {xs[i]!r} came back as {ys[i]!r}")
     o.ambiguous += int(np.sum(elem == 0))
-    rep = np.nonzero(elem == 1)[0]
+    rep = np.nonzero((elem == 1) | (elem == 2))[0]
     if first == "fixed":
         f = float(p["factor"])
         tol = 0.5 / f + 4 * eps * (np.abs(xs) + 0.5 / f) + tiny
@@ -453,6 +571,8 @@ def _compare_float(o, case, x, y, cls):
         ulp = 16 * eps * (abs(mn) + abs(mx) + step) + tiny
         for i in rep:
             xi, yi = xs[i], ys[i]
+            if elem[i] == 2 and xi == yi:
+                continue  # a value outside the interval that was kept as it is
             if xi < mn:
                 good = abs(yi - mn) <= ulp
                 rule = f"below min -> min ({mn})"
@@ -493,104 +613,147 @@ def _is_boundary_case(case, x):
     return False
 
 
+def _encode_chain(data, encs):
+    # (public Encoding.encode / .decode only; biotite's own stepwise helpers are not exported)
+    for e in encs:
+        data = e.encode(data)
+    return data
+
+
+def _decode_chain(data, encs):
+    for e in reversed(encs):
+        data = e.decode(data)
+    return data
+
+
+def _same_values(x, y):
+    """Numerically equal element by element (any NaN equals any NaN), whatever the dtypes."""
+    x = np.asarray(x)
+    y = np.asarray(y)
+    if x.shape != y.shape or y.dtype.kind not in "fiu":
+        return False
+    with np.errstate(all="ignore"):
+        xs = x.astype(np.float64)
+        ys = y.astype(np.float64)
+    return bool(np.all((np.isnan(xs) & np.isnan(ys)) | (xs == ys)))
+
+
+def _compare_decoded(o, case, cls, x0, y, sig):
+    """The oracle for one decoded array; True if nothing was violated."""
+    kind = case["kind"]
+    clause_exact = {"int": "int_roundtrip_exact", "str": "string_roundtrip_exact"}.get(kind)
+    if cls["status"] == "may" and kind != "float":
+        clause_exact = UNREP
+    if kind == "int":
+        return _compare_int(o, case, x0, y, clause_exact)
+    if kind == "str":
+        return _compare_str(o, case, x0, y, clause_exact)
+    before = len(o.violations)
+    if case["chain"][0][0] in ("fixed", "interval", "bytes") and not (cls["status"] == "may" and cls["elem"] is None):
+        _compare_float(o, case, x0, y, cls["elem"])
+    else:
+        # a representation of the wrong kind accepted the data: only the very same values are allowed
+        # (in whatever dtype they come back)
+        o.check(
+            isinstance(y, np.ndarray) and _same_values(x0, y),
+            UNREP,
+            lambda: f"{sig} on {x0.tolist()!r:.300} -> {np.asarray(y).tolist()!r:.300}",
+        )
+    return len(o.violations) == before
+
+
 def run_chain(case):
     from biotite.structure.io.pdbx import BinaryCIFData
-    from biotite.structure.io.pdbx.encoding import decode_stepwise, deserialize_encoding, encode_stepwise
 
     o = Outcome()
     for fid in case.get("narrowed", []):
         o.exclude(fid)
     kind = case["kind"]
-    x = mk_array(kind, case["dtype"], case["segs"])
-    x0 = x.copy()
-    cls = classify(case, x)
+    layout = case.get("layout") or "plain"
+    if not layout_allowed(layout, kind, case["dtype"]):
+        layout = "plain"
+    x0 = mk_array(kind, case["dtype"], case["segs"])
+    if layout == "f16":
+        with np.errstate(all="ignore"):
+            x0 = x0.astype(np.float16).astype(np.float32)
+    # x0: the values (native, contiguous, never handed out); x: what biotite gets
+    x = apply_layout(x0.copy(), layout)
+    cls = classify(case, x0)
     sig = chain_sig(case["chain"])
-    o.label(f"kind={kind}", f"dtype={case['dtype']}", f"chain={sig}", f"class={cls['status']}")
-    o.label("len=0" if len(x) == 0 else "len=1" if len(x) == 1 else "len=2-9" if len(x) < 10 else "len>=10")
+    o.label(f"kind={kind}", f"dtype={case['dtype']}", f"chain={sig}", f"class={cls['status']}", f"layout={layout}")
+    o.label("len=0" if len(x0) == 0 else "len=1" if len(x0) == 1 else "len=2-9" if len(x0) < 10 else "len>=10")
     if cls["status"] == "may":
         o.label("why=" + cls["why"])
-    boundary = _is_boundary_case(case, x)
+    boundary = _is_boundary_case(case, x0)
     if boundary:
         o.label("boundary_or_nonfinite")
-    distinct = len(set(x.tolist())) if kind != "float" else len(set(map(repr, x.tolist())))
+    distinct = len(set(x0.tolist())) if kind != "float" else len(set(map(repr, x0.tolist())))
     n_enc = len(case["chain"]) + (
         len(case["chain"][0][1]["data"]) + len(case["chain"][0][1]["offset"]) if case["chain"] and case["chain"][0][0] == "strings" else 0
     )
-    o.mark_nontrivial((len(x) >= 3 and distinct >= 2 and n_enc >= 2) or boundary or cls["status"] == "may")
-
-    encs = [mk_enc(s) for s in case["chain"]]
+    o.mark_nontrivial((len(x0) >= 3 and distinct >= 2 and n_enc >= 2) or boundary or cls["status"] == "may")
 
     def roundtrip(es):
-        enc = encode_stepwise(x, es)
-        return enc, decode_stepwise(enc, es)
+        enc = _encode_chain(x, es)
+        return enc, _decode_chain(enc, es)
 
     if cls["status"] == "may":
+        # "rejected" = any exception, raised by the constructor of the encoding, by encode() or by decode()
         try:
+            encs = [mk_enc(s) for s in case["chain"]]
             enc, y = roundtrip(encs)
-        except REJECTIONS as e:
+        except Exception as e:  # noqa: BLE001
             o.label("outcome=rejected:" + type(e).__name__)
             return o
         o.label("outcome=accepted")
     else:
+        encs = [mk_enc(s) for s in case["chain"]]
         enc, y = roundtrip(encs)
         o.label("outcome=ok")
 
-    # the input array itself must not be altered by encoding
-    if kind == "float":
-        o.check(_same_float_bits(x, x0), "input_not_modified", "encode() changed its input array")
-    else:
-        o.check(x.tolist() == x0.tolist(), "input_not_modified", "encode() changed its input array")
+    # (not a clause of C05, recorded only: did encode() write into the array it was given?)
+    if layout != "readonly":
+        with np.errstate(all="ignore"):
+            xv = np.asarray(x).astype(x0.dtype)
+        same_in = _same_float_bits(xv, x0) if kind == "float" else xv.tolist() == x0.tolist()
+        if not same_in:
+            o.label("input_array_modified_by_encode")
 
-    clause_exact = {"int": "int_roundtrip_exact", "str": "string_roundtrip_exact"}.get(kind)
-    if cls["status"] == "may" and kind != "float":
-        clause_exact = UNREP
-    if kind == "int":
-        good = _compare_int(o, case, x0, y, clause_exact)
-    elif kind == "str":
-        good = _compare_str(o, case, x0, y, clause_exact)
-    else:
-        before = len(o.violations)
-        if case["chain"][0][0] in ("fixed", "interval", "bytes") and not (
-            cls["status"] == "may" and cls["elem"] is None
-        ):
-            _compare_float(o, case, x0, y, cls["elem"])
-        else:
-            # a representation of the wrong kind accepted the data: only an exact round trip is allowed
-            o.check(
-                isinstance(y, np.ndarray) and y.dtype.kind == "f" and _same_float_bits(x0, y.astype(x0.dtype)),
-                UNREP,
-                lambda: f"{sig} on {x0.tolist()!r:.300} -> {np.asarray(y).tolist()!r:.300}",
-            )
-        good = len(o.violations) == before
-    if not good:
+    if not _compare_decoded(o, case, cls, x0, y, sig):
         return o
 
-    # ---- explicit parameters: the same chain with every inferred parameter spelled out
+    # ---- explicit parameters: the same chain with every inferred parameter spelled out decodes to
+    # ---- the input by the same rules (equal bytes / equal Encoding objects are recorded, not demanded)
     if case.get("explicit") == "copy":
         encs2 = [clone_explicit(e) for e in encs]
-        enc2, y2 = roundtrip(encs2)
-        same_enc = enc2 == enc if isinstance(enc, bytes) else (isinstance(enc2, np.ndarray) and np.array_equal(enc2, enc))
-        o.check(same_enc, "explicit_parameters_same_encoding", lambda: f"{sig}: explicit parameters encode differently: {encs2!r:.400}")
-        o.check(encs2 == encs, "explicit_parameters_same_encoding", lambda: f"{encs2!r:.300} != {encs!r:.300}")
-        if kind == "float":
-            o.check(_same_float_bits(np.asarray(y2), np.asarray(y)), "explicit_parameters_same_encoding", "decoded arrays differ")
+        try:
+            enc2, y2 = roundtrip(encs2)
+        except Exception as e:  # noqa: BLE001
+            if cls["status"] != "may":
+                raise
+            o.label("explicit=rejected:" + type(e).__name__)
         else:
-            o.check(np.asarray(y2).tolist() == np.asarray(y).tolist(), "explicit_parameters_same_encoding", "decoded arrays differ")
-        o.label("explicit=copy")
+            same_enc = enc2 == enc if isinstance(enc, bytes) else (isinstance(enc2, np.ndarray) and np.array_equal(enc2, enc))
+            o.label("explicit=copy", "explicit_same_encoded_data" if same_enc and encs2 == encs else "explicit_other_encoded_data")
+            o2 = Outcome()
+            _compare_decoded(o2, case, cls, x0, y2, sig)
+            o.ambiguous += o2.ambiguous
+            for clause, msg in o2.violations:
+                o.fail(clause, "with explicit copies of the inferred parameters: " + msg)
 
     # ---- serialisation of the encodings (needs a chain that ends in bytes)
     if isinstance(enc, bytes):
         for e in encs:
-            back = deserialize_encoding(e.serialize())
+            back = type(e).deserialize(e.serialize())
             o.check(back == e, "encoding_serialize_roundtrip", lambda e=e, back=back: f"{e!r:.300} -> {back!r:.300}")
-        data = BinaryCIFData(x0, encs)
+        data = BinaryCIFData(x, encs)
         content = _msgpack_roundtrip(data.serialize())
         back = BinaryCIFData.deserialize(content)
         o.check(back.encoding == encs, "encoding_serialize_roundtrip", lambda: f"via msgpack: {encs!r:.300} -> {back.encoding!r:.300}")
-        if kind == "float":
-            o.check(_same_float_bits(back.array, y), "data_serialize_roundtrip", "array decoded from msgpack differs from decode(encode(x))")
+        if kind == "float" and np.asarray(y).dtype.kind == "f":
+            o.check(_same_float_bits(np.asarray(back.array), np.asarray(y)), "data_serialize_roundtrip", "array decoded from msgpack differs from decode(encode(x))")
         else:
-            o.check(back.array.tolist() == np.asarray(y).tolist(), "data_serialize_roundtrip", "array decoded from msgpack differs from decode(encode(x))")
+            o.check(np.asarray(back.array).tolist() == np.asarray(y).tolist(), "data_serialize_roundtrip", "array decoded from msgpack differs from decode(encode(x))")
         o.label("serialized")
     return o
 
@@ -734,6 +897,7 @@ def st_int_chain_case(tier):
             "chain": chain,
             "explicit": draw(st.sampled_from(["inferred", "inferred", "copy"])),
             "narrowed": narrowed,
+            "layout": draw(st_layout("int", dtype)),
         }
 
     return gen()
@@ -765,13 +929,15 @@ def st_fixed_values(dtype, factor, tier, allow_unrep):
     return _weighted([(1, st.just([])), (2, elem.map(lambda v: [["lit", [v]]])), (27, st.lists(seg, min_size=1, max_size=4))])
 
 
-def st_interval_values(mn, mx, k, tier, allow_nan):
+def st_interval_values(mn, mx, k, tier, allow_nan, allow_outside=True):
     step = (mx - mn) / (k - 1)
     inside = st.floats(mn, mx, allow_nan=False)
     on_step = st.integers(0, k - 1).map(lambda j: mn + j * step)
     outside = st.one_of(st.floats(mn - 10 * (mx - mn) - 1, mn, allow_nan=False), st.floats(mx, mx + 10 * (mx - mn) + 1, allow_nan=False))
     special = [mn, mx, math.inf, -math.inf, mn - step, mx + step, mx + 3 * step]
     pairs = [(4, inside), (2, on_step), (2, outside), (2, st.sampled_from(special))]
+    if not allow_outside:
+        pairs = [(4, inside), (2, on_step), (1, st.sampled_from([mn, mx]))]
     if allow_nan:
         pairs.append((1, st.just(math.nan)))
     elem = _weighted(pairs)
@@ -822,7 +988,7 @@ def st_float_chain_case(tier):
             if want_nan and findings.is_open("C05-F4"):
                 want_nan = False
                 narrowed.append("C05-F4")
-            segs = draw(st_interval_values(mn, mn + width, k, tier, want_nan))
+            segs = draw(st_interval_values(mn, mn + width, k, tier, want_nan, allow_outside=draw(st.booleans())))
             chain = [["interval", {"min": mn, "max": mn + width, "num_steps": k, "src_type": src}]] + tail
         else:
             typ = draw(st.sampled_from([None, None, "float32", "float64"]))
@@ -848,6 +1014,7 @@ def st_float_chain_case(tier):
             "chain": chain,
             "explicit": draw(st.sampled_from(["inferred", "inferred", "copy"])),
             "narrowed": narrowed,
+            "layout": draw(st_layout("float", dtype, f16=head == "bytes")),
         }
 
     return gen()
@@ -880,7 +1047,13 @@ def st_string_chain_case(tier):
             uniq = list(dict.fromkeys(expand(segs)))
             extra = [s for s in draw(st.lists(st_string_elem(), max_size=3)) if s not in uniq]
             strings = list(dict.fromkeys(uniq + extra))
-            params["strings"] = draw(st.permutations(strings))
+            strings = draw(st.permutations(strings))
+            if strings and draw(st.sampled_from([False, False, False, True])):
+                # a table that lists a string twice (class "strings_not_unique": refusal or exact round trip)
+                k = draw(st.integers(0, len(strings) - 1))
+                strings = list(strings)
+                strings.insert(draw(st.integers(0, len(strings))), strings[k])
+            params["strings"] = list(strings)
         return {
             "kind": "str",
             "dtype": "U",
@@ -888,6 +1061,7 @@ def st_string_chain_case(tier):
             "chain": [["strings", params]],
             "explicit": draw(st.sampled_from(["inferred", "inferred", "copy"])),
             "narrowed": [],
+            "layout": draw(st_layout("str", "U")),
         }
 
     return gen()
@@ -899,7 +1073,7 @@ def st_string_chain_case(tier):
 UNREP_KINDS = [
     "bytes_narrow_int", "bytes_int_type_on_float", "wide64", "fixed_unrep", "interval_nan", "bytes_f32_overflow",
     "rle_narrow_src", "delta_narrow_src", "pack_unsigned_negative", "wrong_src_size", "strings_missing",
-    "strings_on_int", "pack_uint32_high", "delta_origin_out_of_range", "pack_signed_on_uint32",
+    "strings_on_int", "pack_uint32_high", "delta_origin_out_of_range", "pack_signed_on_uint32", "pack_bad_byte_count",
 ]  # fmt: skip
 
 
@@ -1008,6 +1182,10 @@ def st_unrepresentable_case(tier):
                 vals = vals + [draw(st.sampled_from([2**31, 2**31 + 5, 2**32 - 1]))]
             unsigned = False if what == "pack_signed_on_uint32" else draw(st.sampled_from([None, True]))
             case.update(dtype=T, segs=[["lit", vals]], chain=[["pack", {"byte_count": 2, "is_unsigned": unsigned}], ["bytes", {}]])
+        elif what == "pack_bad_byte_count":
+            T = draw(st.sampled_from(["int8", "int16", "int32", "uint8", "uint16"]))
+            segs = draw(st_int_segs(T, tier, wide=False, small_only=True, allow_short=False))
+            case.update(dtype=T, segs=segs, chain=[["pack", {"byte_count": draw(st.sampled_from([0, 3, 4, 8, -1]))}], ["bytes", {}]])
         elif what == "delta_origin_out_of_range":
             T = draw(st.sampled_from(INT_TYPES[:3] + INT_TYPES[4:7]))
             lo, hi = RANGE[T]
@@ -1076,6 +1254,11 @@ def _col_array(col, rows):
     return mk_array(col["kind"], col["dtype"], col["segs"], rows)
 
 
+def _col_layout(col):
+    layout = col.get("layout") or "plain"
+    return layout if layout in ("strided", "readonly") else "plain"
+
+
 def _mask_array(col, n):
     if col.get("mask") is None:
         return None
@@ -1086,8 +1269,20 @@ def _mask_array(col, n):
     return np.array(vals, dtype=np.uint8)
 
 
+def _targets(case):
+    """(block name, category name) of every category the component holds (levels block / file may
+    hold a second category and a second block with the same columns)."""
+    level, extra = case["level"], case.get("extra")
+    out = [("blk", "cat")]
+    if level in ("block", "file") and extra in ("cat2", "both"):
+        out.append(("blk", "cat2"))
+    if level == "file" and extra in ("blk2", "both"):
+        out.append(("blk2", "cat"))
+    return out
+
+
 def _build_component(case):
-    """-> (component, [(path, data array, mask array or None)])"""
+    """-> (component, [(column name, data array (native copy, never handed to biotite), mask array or None)])"""
     from biotite.structure.io.pdbx import BinaryCIFBlock, BinaryCIFCategory, BinaryCIFColumn, BinaryCIFData, BinaryCIFFile
 
     level = case["level"]
@@ -1097,19 +1292,31 @@ def _build_component(case):
     for c in cols:
         a = _col_array(c, rows)
         arrays.append((c["name"], a, _mask_array(c, len(a))))
+
+    def given(c, a):
+        return apply_layout(a.copy(), _col_layout(c))
+
+    def column(c, a, m):
+        return BinaryCIFColumn(BinaryCIFData(given(c, a)), None if m is None else BinaryCIFData(m.copy()))
+
     if level == "data":
         name, a, _ = arrays[0]
-        return BinaryCIFData(a), [(name, a, None)]
+        return BinaryCIFData(given(cols[0], a)), [(name, a, None)]
     if level == "column":
         name, a, m = arrays[0]
-        return BinaryCIFColumn(BinaryCIFData(a), None if m is None else BinaryCIFData(m)), [(name, a, m)]
-    cat = BinaryCIFCategory({name: BinaryCIFColumn(BinaryCIFData(a), None if m is None else BinaryCIFData(m)) for name, a, m in arrays})
+        return column(cols[0], a, m), [(name, a, m)]
+
+    def category():
+        return BinaryCIFCategory({name: column(c, a, m) for c, (name, a, m) in zip(cols, arrays)})
+
     if level == "category":
-        return cat, arrays
-    block = BinaryCIFBlock({"cat": cat})
+        return category(), arrays
+    blocks = {}
+    for blk, cat in _targets(case):
+        blocks.setdefault(blk, {})[cat] = category()
     if level == "block":
-        return block, arrays
-    return BinaryCIFFile({"blk": block}), arrays
+        return BinaryCIFBlock(blocks["blk"]), arrays
+    return BinaryCIFFile({blk: BinaryCIFBlock(cats) for blk, cats in blocks.items()}), arrays
 
 
 def _pack_component(comp):
@@ -1145,29 +1352,70 @@ def _unpack_component(level, blob):
     return f["blk"]["cat"]["c0"].data
 
 
-def _columns_of(level, comp, names):
+def _component_keys(level, comp):
+    """The names of the blocks / categories a block or file holds: {block: [categories]}"""
+    if level == "block":
+        return {"blk": sorted(comp.keys())}
+    if level == "file":
+        return {blk: sorted(comp[blk].keys()) for blk in sorted(comp.keys())}
+    return {}
+
+
+def _columns_of(level, comp, names, target=("blk", "cat")):
     """-> {name: (data BinaryCIFData, mask BinaryCIFData|None)}"""
     if level == "data":
         return {names[0]: (comp, None)}
     if level == "column":
         return {names[0]: (comp.data, comp.mask)}
-    cat = comp if level == "category" else comp["cat"] if level == "block" else comp["blk"]["cat"]
+    cat = comp if level == "category" else comp[target[1]] if level == "block" else comp[target[0]][target[1]]
     return {n: (cat[n].data, cat[n].mask) for n in names}
+
+
+def _default_tolerance():
+    """The default of compress(..., float_tolerance=) as the signature (and with it the docstring) states it."""
+    import inspect
+
+    from biotite.structure.io.pdbx import compress
+
+    try:
+        d = inspect.signature(compress).parameters["float_tolerance"].default
+    except (KeyError, TypeError, ValueError):
+        return None
+    return float(d) if isinstance(d, (int, float)) and not isinstance(d, bool) and 0 < d < 1 else None
+
+
+def _case_tolerance(case):
+    if case.get("tol_form") == "default":
+        d = _default_tolerance()
+        if d is not None:
+            return d
+    return 10.0 ** -case["tol_exp"]
+
+
+def _tol_form(case):
+    form = case.get("tol_form") or "positional"
+    if form == "default" and _default_tolerance() is None:
+        form = "positional"  # no default to be found in the signature: pass the tolerance
+    return form
 
 
 def _compress_payload(case):
     """Runs inside the worker or inside the sandbox child.  Returns picklable data."""
     from biotite.structure.io.pdbx import compress
 
-    comp, arrays = _build_component(case)
-    before = [(a.copy(), None if m is None else m.copy()) for _, a, m in arrays]
-    out = compress(comp, 10.0 ** -case["tol_exp"])
+    comp, _ = _build_component(case)
+    if case.get("reread"):
+        # the realistic route: a file that was read (lazily kept children, parameterised encodings)
+        comp = _unpack_component(case["level"], _pack_component(comp))
+    form = _tol_form(case)
+    if form == "default":
+        out = compress(comp)
+    elif form == "keyword":
+        out = compress(comp, float_tolerance=_case_tolerance(case))
+    else:
+        out = compress(comp, _case_tolerance(case))
     blob = _pack_component(out)
-    untouched = True
-    for (_, a, m), (a0, m0) in zip(arrays, before):
-        same = _same_float_bits(a, a0) if a.dtype.kind == "f" else a.tolist() == a0.tolist()
-        untouched = untouched and same and (m is None or m.tolist() == m0.tolist())
-    return {"blob": blob, "type": type(out).__name__, "in_type": type(comp).__name__, "untouched": untouched}
+    return {"blob": blob, "type": type(out).__name__, "in_type": type(comp).__name__}
 
 
 def _float_risky(a, tol):
@@ -1191,18 +1439,25 @@ def _enc_names(encoding):
     return "+".join(out)
 
 
+COMPRESS_TIMEOUT_S = 8.0
+COMPRESS_RETRY_TIMEOUT_S = 90.0
+
+
 def run_compress(case):
-    from biotite.file import SerializationError
     from vlib.sandbox import run_sandboxed
 
     o = Outcome()
     for fid in case.get("narrowed", []):
         o.exclude(fid)
     level = case["level"]
-    tol = 10.0 ** -case["tol_exp"]
+    tol = _case_tolerance(case)
     comp, arrays = _build_component(case)
     names = [n for n, _, _ in arrays]
-    o.label(f"level={level}", f"tol=1e-{case['tol_exp']}")
+    targets = _targets(case)
+    o.label(f"level={level}", f"tol={tol:.0e}", "tol_form=" + _tol_form(case))
+    o.label(f"categories={len(targets)}" if level in ("block", "file") else "categories=1")
+    if case.get("reread"):
+        o.label("compress_after_read")
 
     # may the call refuse?  only if an integer column holds values no 32-bit type can hold
     unrep = False
@@ -1212,12 +1467,17 @@ def run_compress(case):
     risky = any(a.dtype.kind == "f" and _float_risky(a, tol) for _, a, _ in arrays)
     if risky:
         o.label("sandboxed")
-        status, value = run_sandboxed(_compress_payload, case, timeout=8.0)
+        status, value = run_sandboxed(_compress_payload, case, timeout=COMPRESS_TIMEOUT_S)
         if status == "timeout":
-            o.fail("compress_terminates", "compress() did not return within 8 s")
+            # a slow machine is not a hang: once more with a bound far beyond any load factor seen
+            # (the call itself needs well below a second)
+            o.label("sandbox_retry_after_timeout")
+            status, value = run_sandboxed(_compress_payload, case, timeout=COMPRESS_RETRY_TIMEOUT_S)
+        if status == "timeout":
+            o.fail("compress_terminates", f"compress() did not return within {COMPRESS_TIMEOUT_S:.0f} s and, tried again, not within {COMPRESS_RETRY_TIMEOUT_S:.0f} s")
             return o
         if status == "exc":
-            if unrep and value[0] in REJECTION_NAMES | {"SerializationError"}:
+            if unrep:
                 o.label("outcome=rejected:" + value[0])
                 o.mark_nontrivial()
                 return o
@@ -1228,94 +1488,112 @@ def run_compress(case):
             return o
         res = value
     elif unrep:
+        # "rejected" = any exception
         try:
             res = _compress_payload(case)
-        except REJECTIONS + (SerializationError,) as e:
+        except Exception as e:  # noqa: BLE001
             o.label("outcome=rejected:" + type(e).__name__)
             o.mark_nontrivial()
             return o
     else:
         res = _compress_payload(case)
     o.check_eq(res["type"], res["in_type"], "compress_returns_same_type", "type of compress() result")
-    o.check(res["untouched"], "input_not_modified", "compress() changed the arrays of its argument")
 
     back = _unpack_component(level, res["blob"])
-    got = _columns_of(level, back, names)
-    plain = None
+    plain_comp = None
     if not unrep:
-        plain = _columns_of(level, _unpack_component(level, _pack_component(comp)), names)
+        plain_comp = _unpack_component(level, _pack_component(comp))
+    if level in ("block", "file"):
+        want_keys = {}
+        for blk, cat in targets:
+            want_keys.setdefault(blk, []).append(cat)
+        want_keys = {blk: sorted(cats) for blk, cats in want_keys.items()}
+        if level == "block":
+            want_keys = {"blk": want_keys["blk"]}
+        if not o.check_eq(_component_keys(level, back), want_keys, "compress_keeps_all_components", "blocks/categories of the compressed component"):
+            return o
 
     nontrivial = False
-    for c, (name, a, m) in zip(case["columns"], arrays):
-        data, mask = got[name]
-        y = data.array
-        sig = _enc_names(data.encoding)
-        o.label(f"col={c['kind']}:{c['dtype']}", f"chosen[{c['kind']}]={sig}")
-        n_enc = len(data.encoding)
-        if c["kind"] == "str":
-            se = data.encoding[0]
-            n_enc += len(se.data_encoding) + len(se.offset_encoding)
-            o.check(y.dtype.kind == "U" and y.tolist() == a.tolist(), "compress_str_exact", lambda: f"{a.tolist()!r:.300} -> {y.tolist()!r:.300} via {data.encoding!r:.300}")
-            distinct = len(set(a.tolist()))
-        elif c["kind"] == "int":
-            clause = UNREP if unrep else "compress_int_exact"
-            o.check(
-                y.dtype.kind in "iu" and [int(v) for v in y.tolist()] == [int(v) for v in a.tolist()],
-                clause,
-                lambda: f"{c['dtype']} {a.tolist()!r:.300} -> {y.tolist()!r:.300} via {sig}",
-            )
-            distinct = len(set(a.tolist()))
-            lo, hi = RANGE[c["dtype"]]
-            if any(int(v) in BOUNDARY_SET or int(v) in (lo, hi) for v in a.tolist()):
-                nontrivial = True
-                o.label("int_boundary")
-        else:
-            distinct = len(set(map(repr, a.tolist())))
-            if not o.check(y.shape == a.shape and y.dtype.kind == "f", "compress_within_tolerance", f"shape/dtype {y.shape} {y.dtype}"):
-                continue
-            xs = a.astype(np.float64)
-            ys = y.astype(np.float64)
-            fin = np.isfinite(xs)
-            if not fin.all():
-                o.label("float_nonfinite")
-                nontrivial = True
-                bad = [i for i in np.nonzero(~fin)[0] if not ((math.isnan(xs[i]) and math.isnan(ys[i])) or xs[i] == ys[i])]
+    for ti, target in enumerate(targets):
+        got = _columns_of(level, back, names, target)
+        plain = None if plain_comp is None else _columns_of(level, plain_comp, names, target)
+        where = "" if ti == 0 else f" (in {target[0]}/{target[1]})"
+        for c, (name, a, m) in zip(case["columns"], arrays):
+            data, mask = got[name]
+            y = data.array
+            sig = _enc_names(data.encoding)
+            if ti == 0:
+                o.label(f"col={c['kind']}:{c['dtype']}", f"chosen[{c['kind']}]={sig}", "col_layout=" + _col_layout(c))
+            n_enc = len(data.encoding)
+            if c["kind"] == "str":
+                se = data.encoding[0]
+                n_enc += len(getattr(se, "data_encoding", None) or []) + len(getattr(se, "offset_encoding", None) or [])
+                if ti == 0 and hasattr(se, "data_encoding"):
+                    o.label("chosen[str.data]=" + _enc_names(se.data_encoding), "chosen[str.offset]=" + _enc_names(se.offset_encoding))
+                o.check(y.shape == a.shape and _str_values(y) == a.tolist(), "compress_str_exact", lambda: f"{a.tolist()!r:.300} -> {y.tolist()!r:.300} via {data.encoding!r:.300}{where}")
+                distinct = len(set(a.tolist()))
+            elif c["kind"] == "int":
+                clause = UNREP if unrep else "compress_int_exact"
+                o.check(
+                    y.dtype.kind in "iu" and [int(v) for v in y.tolist()] == [int(v) for v in a.tolist()],
+                    clause,
+                    lambda: f"{c['dtype']} {a.tolist()!r:.300} -> {y.tolist()!r:.300} via {sig}{where}",
+                )
+                distinct = len(set(a.tolist()))
+                lo, hi = RANGE[c["dtype"]]
+                if any(int(v) in BOUNDARY_SET or int(v) in (lo, hi) for v in a.tolist()):
+                    nontrivial = True
+                    if ti == 0:
+                        o.label("int_boundary")
+            else:
+                distinct = len(set(map(repr, a.tolist())))
+                if not o.check(y.shape == a.shape and y.dtype.kind == "f", "compress_within_tolerance", f"shape/dtype {y.shape} {y.dtype}{where}"):
+                    continue
+                xs = a.astype(np.float64)
+                ys = y.astype(np.float64)
+                fin = np.isfinite(xs)
+                if not fin.all():
+                    if ti == 0:
+                        o.label("float_nonfinite")
+                    nontrivial = True
+                    bad = [i for i in np.nonzero(~fin)[0] if not ((math.isnan(xs[i]) and math.isnan(ys[i])) or xs[i] == ys[i])]
+                    o.check(
+                        not bad,
+                        "compress_nonfinite_lossless_or_rejected",
+                        lambda: f"{a.tolist()!r:.300} -> {y.tolist()!r:.300} via {sig}{where}",
+                    )
+                eps = EPS["float32"] if a.dtype == np.float32 else EPS["float64"]
+                bound = tol * np.abs(xs) + 4 * eps * np.abs(xs)
+                with np.errstate(all="ignore"):
+                    err = np.abs(ys - xs)
+                bad = [i for i in np.nonzero(fin)[0] if not err[i] <= bound[i]]
                 o.check(
                     not bad,
-                    "compress_nonfinite_lossless_or_rejected",
-                    lambda: f"{a.tolist()!r:.300} -> {y.tolist()!r:.300} via {sig}",
+                    "compress_within_tolerance",
+                    lambda: f"tol {tol}: {xs[bad[0]]!r} -> {ys[bad[0]]!r} (rel. error {err[bad[0]] / abs(xs[bad[0]]) if xs[bad[0]] else err[bad[0]]!r}) via {sig}{where}; array {a.tolist()!r:.200}",
                 )
-            eps = EPS["float32"] if a.dtype == np.float32 else EPS["float64"]
-            bound = tol * np.abs(xs) + 4 * eps * np.abs(xs)
-            with np.errstate(all="ignore"):
-                err = np.abs(ys - xs)
-            bad = [i for i in np.nonzero(fin)[0] if not err[i] <= bound[i]]
-            o.check(
-                not bad,
-                "compress_within_tolerance",
-                lambda: f"tol {tol}: {xs[bad[0]]!r} -> {ys[bad[0]]!r} (rel. error {err[bad[0]] / abs(xs[bad[0]]) if xs[bad[0]] else err[bad[0]]!r}) via {sig}; array {a.tolist()!r:.200}",
-            )
-            if "FixedPoint" in sig:
-                o.label("float_fixed_point")
+                # (whether a column that is not stored as fixed point comes back bit-identical is
+                # recorded only: the property promises the tolerance, nothing more)
+                if ti == 0:
+                    o.label("float_fixed_point" if "FixedPoint" in sig else "float_kept_as_bytes")
+                    o.label("float_bit_identical" if _same_float_bits(a, y) else "float_within_tolerance_only")
+            if len(a) >= 3 and distinct >= 2 and n_enc >= 2:
+                nontrivial = True
+            # mask
+            if m is not None:
+                if o.check(mask is not None, "compress_mask_exact", "mask lost by compress()" + where):
+                    o.check(np.asarray(mask.array).tolist() == m.tolist(), "compress_mask_exact", lambda: f"mask {m.tolist()!r:.200} -> {mask.array.tolist()!r:.200}{where}")
+                    if ti == 0:
+                        o.label("masked", "chosen[mask]=" + _enc_names(mask.encoding))
             else:
-                o.label("float_kept_as_bytes")
-                o.check(_same_float_bits(a, y), "compress_within_tolerance", lambda: f"byte encoding altered {a.tolist()!r:.200} -> {y.tolist()!r:.200}")
-        if len(a) >= 3 and distinct >= 2 and n_enc >= 2:
-            nontrivial = True
-        # mask
-        if m is not None:
-            if o.check(mask is not None, "compress_mask_exact", "mask lost by compress()"):
-                o.check(mask.array.tolist() == m.tolist(), "compress_mask_exact", lambda: f"mask {m.tolist()!r:.200} -> {mask.array.tolist()!r:.200}")
-                o.label("masked", "chosen[mask]=" + _enc_names(mask.encoding))
-        else:
-            o.check(mask is None, "compress_mask_exact", "mask appeared")
-        # compressed and uncompressed decode to the same arrays
-        if plain is not None:
-            pd = plain[name][0].array
-            if c["kind"] == "float":
-                o.check(_same_float_bits(pd, a), "uncompressed_roundtrip_exact", lambda: f"{a.tolist()!r:.200} -> {pd.tolist()!r:.200}")
-            else:
-                o.check(pd.tolist() == a.tolist(), "uncompressed_roundtrip_exact", lambda: f"{a.tolist()!r:.200} -> {pd.tolist()!r:.200}")
+                o.check(mask is None, "compress_mask_exact", "mask appeared" + where)
+            # the uncompressed component decodes to the same arrays
+            if plain is not None:
+                pd = plain[name][0].array
+                if c["kind"] == "float":
+                    o.check(_same_float_bits(pd, a), "uncompressed_roundtrip_exact", lambda: f"{a.tolist()!r:.200} -> {pd.tolist()!r:.200}{where}")
+                else:
+                    o.check(np.asarray(pd).tolist() == a.tolist(), "uncompressed_roundtrip_exact", lambda: f"{a.tolist()!r:.200} -> {pd.tolist()!r:.200}{where}")
     if unrep:
         o.label("outcome=accepted_unrepresentable")
     o.mark_nontrivial(nontrivial)
@@ -1340,10 +1618,25 @@ def st_compress_float_segs(dtype, tier, allow_nonfinite):
     edge = st.sampled_from(
         [2147483648.0, 2147483647.0, -2147483648.0, -2147483649.0, 2147483.648, 2147483.647, -2147483.648, 21474836.47, 21474836.48, 1.0, 3.0, 0.5, 0.25, 0.001]
     )
-    flavour = st.sampled_from(["coords", "coords", "cents", "generic", "generic", "wide", "mixed", "tiny", "edge"])
+    # the ends of the dynamic range of the type (subnormals, the largest finite values)
+    if dtype == "float32":
+        extreme = st.one_of(sci(-44, 38), st.sampled_from([F32_MAX, -F32_MAX, 1e-45, 1.1754944e-38, 1e38, -1e-38, 1.0]))
+    else:
+        extreme = st.one_of(
+            sci(-320, 308).filter(math.isfinite),
+            st.sampled_from([1.7976931348623157e308, -1.7976931348623157e308, 5e-324, 2.2250738585072014e-308, 1e300, -1e-300, F32_MAX, 1.0]),
+        )
+    flavour = st.sampled_from(["coords", "coords", "cents", "generic", "generic", "wide", "mixed", "tiny", "edge", "extreme", "precise"])
+    # "precise": one number of decimals (5..9) for the whole column, all of them significant, image within
+    # int32 - fixed point is possible only with that many decimals, i.e. only if the tolerance is honoured
+    precise_d = st.integers(5, 9)
 
-    def segs_for(fl):
-        if fl == "coords":
+    def segs_for(fl, d=None):
+        if fl == "precise" and d is None:
+            return precise_d.flatmap(lambda dd: segs_for("precise", dd))
+        if fl == "precise":
+            pairs = [(9, st.integers(-2 * 10**9, 2 * 10**9).map(lambda k: k / 10.0**d)), (1, st.integers(-99, 99).map(float))]
+        elif fl == "coords":
             pairs = [(9, coords), (1, special)]
         elif fl == "cents":
             pairs = [(9, cents), (1, special)]
@@ -1355,6 +1648,8 @@ def st_compress_float_segs(dtype, tier, allow_nonfinite):
             pairs = [(9, tiny), (1, st.just(0.0))]
         elif fl == "edge":
             pairs = [(9, edge), (1, coords)]
+        elif fl == "extreme":
+            pairs = [(8, extreme), (1, special), (1, coords)]
         else:
             pairs = [(3, coords), (3, generic), (2, wide), (2, special)]
         if allow_nonfinite:
@@ -1427,6 +1722,7 @@ def st_compress_column(tier, name, allow_wide_int=True):
             col.update(dtype=dtype, segs=draw(st_compress_float_segs(dtype, tier, draw(st.integers(0, 2)) == 0)))
         else:
             col.update(dtype="U", segs=draw(st_string_segs(tier)))
+        col["layout"] = draw(st_layout(kind, col["dtype"], be=False))
         return col
 
     return gen()
@@ -1437,6 +1733,14 @@ def st_compress_case(tier):
     def gen(draw):
         level = draw(st.sampled_from(["data", "data", "column", "column", "category", "block", "file"]))
         case = {"level": level, "tol_exp": draw(st.sampled_from([1, 2, 3, 4, 5, 6, 6, 6, 7, 8, 9])), "rows": None, "narrowed": []}
+        # how the tolerance is passed: positional, as keyword, or not at all (the documented default 1e-6)
+        case["tol_form"] = draw(st.sampled_from(["positional"] * 6 + ["keyword"] * 3 + ["default"]))
+        if case["tol_form"] == "default":
+            case["tol_exp"] = 6
+        # compress() of a component that was written and read again (1 in 5)
+        case["reread"] = draw(st.sampled_from([False] * 4 + [True]))
+        # a second category / a second block with the same columns (levels block and file)
+        case["extra"] = draw(st.sampled_from([None, None, None, "cat2", "blk2", "both"])) if level in ("block", "file") else None
         if level in ("data", "column"):
             col = draw(st_compress_column(tier, "c0"))
             if level == "column":
@@ -1469,6 +1773,11 @@ def st_ser_column(tier, name):
             segs = draw(st_int_segs(dtype, tier, wide=False, allow_short=False))
             if _has_pack1(chain):
                 segs = _cap_extremes(segs, keep=0, limit=1 << 16)
+            if chain[0][0] == "delta":
+                flat = [min(max(v, RANGE[dtype][0]), RANGE[dtype][1]) for v in expand(segs)]
+                if flat and _step_outside_int32(flat + flat[:1]):
+                    # (rows are filled by repeating the values) a step no int32 holds may be refused: tested elsewhere
+                    segs = [["lit", [v % 100000 for v in flat]]]
             if chain[0][0] == "delta" and dtype == "uint64":
                 chain = chain[1:]  # keep clear of C05-F6 (tested elsewhere)
             if chain[0][0] == "pack" and dtype in ("uint32", "uint64"):
@@ -1581,7 +1890,7 @@ def run_serialize(case):
                 elif kind == "int":
                     o.check(y.dtype.kind in "iu" and [int(v) for v in y.tolist()] == [int(v) for v in a.tolist()], "column_array_roundtrip", lambda: f"{col['name']!r}: {a.tolist()!r:.200} -> {y.tolist()!r:.200}")
                 else:
-                    o.check(y.dtype.kind == "U" and y.tolist() == a.tolist(), "column_array_roundtrip", lambda: f"{col['name']!r}: {a.tolist()!r:.200} -> {y.tolist()!r:.200}")
+                    o.check(y.shape == a.shape and _str_values(y) == a.tolist(), "column_array_roundtrip", lambda: f"{col['name']!r}: {a.tolist()!r:.200} -> {y.tolist()!r:.200}")
                 if m is None:
                     o.check(gcol.mask is None, "mask_roundtrip", f"{col['name']!r}: mask appeared")
                 else:
@@ -1639,7 +1948,7 @@ def run_serialize(case):
                     got = fcol.as_array(masked_value=fill) if dt is None else fcol.as_array(dt, masked_value=fill)
                     want = np.where(np.asarray(m) != 0, np.array(fill, dtype=a.dtype), a)
                     okv = _same_float_bits(want, np.asarray(got).astype(a.dtype)) if kind == "float" else np.asarray(got).tolist() == want.tolist()
-                    o.check(okv, "mask_roundtrip", lambda: f"as_array(masked_value={fill}) of {col['name']!r}: {np.asarray(got).tolist()!r:.200}, want {want.tolist()!r:.200}")
+                    o.check(okv, "as_array_masked_value", lambda: f"as_array(masked_value={fill}) of {col['name']!r}: {np.asarray(got).tolist()!r:.200}, want {want.tolist()!r:.200}")
                 stored = fcol.data.array
                 okd = _same_float_bits(a, stored.astype(a.dtype)) if kind == "float" else stored.tolist() == a.tolist()
                 o.check(okd, "column_array_roundtrip", lambda: f"as_array(masked_value=...) changed the stored data of {col['name']!r}: {stored.tolist()!r:.200}, was {a.tolist()!r:.200}")
@@ -1647,49 +1956,78 @@ def run_serialize(case):
     if probed:
         o.label("as_array_with_masked_value")
     # the written object is edited in place (rows reversed: same value set, so every encoding
-    # parameter stays valid) and written again: the second file holds the new content
-    edited = 0
-    # (the file may hold the very arrays of `truth`: take copies before editing)
+    # parameter stays valid) and written again: the second file holds what the object shows at that
+    # time.  Whether `.array` hands out the live buffer is not documented: a column counts as edited
+    # only if the object, asked again, shows the new rows (otherwise: label edit_not_accepted).
     truth = {key: (np.array(a, copy=True), None if m is None else np.array(m, copy=True), kind) for key, (a, m, kind) in truth.items()}
+
+    def same_rows(kind, got, want):
+        got = np.asarray(got)
+        if got.shape != want.shape:
+            return False
+        if kind == "float":
+            return got.dtype.kind == "f" and _same_float_bits(want, got.astype(want.dtype))
+        if kind == "int":
+            return got.dtype.kind in "iu" and [int(v) for v in got.tolist()] == [int(v) for v in want.tolist()]
+        return _str_values(got) == want.tolist()
+
+    def reverse_in_place(arr):
+        try:
+            arr[:] = arr[::-1].copy()
+        except (ValueError, TypeError):  # read-only or otherwise immutable representation
+            pass
+
+    expect = {}  # key -> (rows the data must show in the second file, rows of the mask or None)
     for b in case["blocks"]:
         for c in b["categories"]:
             for col in c["columns"]:
-                fcol = f[b["name"]][c["name"]][col["name"]]
-                arr = fcol.data.array
+                key = (b["name"], c["name"], col["name"])
+                a, m, kind = truth[key]
                 # element-wise encodings keep their (already resolved) parameters valid for the
                 # reversed rows; a Delta step does not (other differences) - such columns stay as they are
                 chains = [col["chain"]] + ([col["mask"]["chain"]] if col.get("mask") and col["mask"].get("chain") else [])
                 has_delta = '"delta"' in json.dumps(chains)  # also inside the nested chains of a StringArray
-                if has_delta:
-                    truth[(b["name"], c["name"], col["name"])] = (truth[(b["name"], c["name"], col["name"])][0][:0],) + truth[(b["name"], c["name"], col["name"])][1:]
+                if has_delta or len(a) < 2:
                     continue
-                if len(arr) >= 2 and arr.flags.writeable:
-                    arr[:] = arr[::-1].copy()
-                    if fcol.mask is not None and fcol.mask.array.flags.writeable:
-                        fcol.mask.array[:] = fcol.mask.array[::-1].copy()
-                    edited += 1
-    if edited:
+                fcol = f[b["name"]][c["name"]][col["name"]]
+                arr = fcol.data.array
+                if isinstance(arr, np.ndarray) and arr.flags.writeable:
+                    reverse_in_place(arr)
+                if m is not None and fcol.mask is not None and isinstance(fcol.mask.array, np.ndarray) and fcol.mask.array.flags.writeable:
+                    reverse_in_place(fcol.mask.array)
+                # what does the object hold now?
+                fcol = f[b["name"]][c["name"]][col["name"]]
+                if same_rows(kind, fcol.data.array, a[::-1]):
+                    want_a = a[::-1]
+                elif same_rows(kind, fcol.data.array, a):
+                    want_a = a
+                else:
+                    o.fail("column_array_roundtrip", f"{col['name']!r}: after reversing the rows of .array in place the column shows neither the old nor the new rows: {np.asarray(fcol.data.array).tolist()!r:.200}")
+                    continue
+                want_m = None
+                if m is not None and fcol.mask is not None:
+                    if same_rows("int", fcol.mask.array, m[::-1]):
+                        want_m = m[::-1]
+                    elif same_rows("int", fcol.mask.array, m):
+                        want_m = m
+                expect[key] = (want_a, want_m)
+                changed = (want_a is not a and not same_rows(kind, a, a[::-1])) or (want_m is not None and want_m is not m and m.tolist() != m[::-1].tolist())
+                o.label("edit_shown_by_object" if changed else "edit_not_accepted_or_palindrome")
+    if expect:
         o.label("rewritten_after_in_place_edit")
         buf5 = io.BytesIO()
         f.write(buf5)
         g5 = BinaryCIFFile.read(io.BytesIO(buf5.getvalue()))
-        for b in case["blocks"]:
-            for c in b["categories"]:
-                for col in c["columns"]:
-                    a, m, kind = truth[(b["name"], c["name"], col["name"])]
-                    if len(a) < 2:
-                        continue
-                    y = g5[b["name"]][c["name"]][col["name"]]
-                    want = a[::-1]
-                    if kind == "float":
-                        okv = _same_float_bits(want, y.data.array.astype(a.dtype))
-                    elif kind == "int":
-                        okv = [int(v) for v in y.data.array.tolist()] == [int(v) for v in want.tolist()]
-                    else:
-                        okv = y.data.array.tolist() == want.tolist()
-                    o.check(okv, "file_roundtrip_equal", lambda: f"{col['name']!r} written again after an in-place edit: read {y.data.array.tolist()!r:.200}, want {want.tolist()!r:.200}")
-                    if m is not None and y.mask is not None:
-                        o.check_eq(y.mask.array.tolist(), m[::-1].tolist(), "mask_roundtrip", f"mask of {col['name']!r} after an in-place edit")
+        for (bn, cn, coln), (want_a, want_m) in expect.items():
+            kind = truth[(bn, cn, coln)][2]
+            y = g5[bn][cn][coln]
+            o.check(
+                same_rows(kind, y.data.array, want_a),
+                "file_roundtrip_equal",
+                lambda: f"{coln!r} written again after an in-place edit: read {np.asarray(y.data.array).tolist()!r:.200}, the written object showed {want_a.tolist()!r:.200}",
+            )
+            if want_m is not None and y.mask is not None:
+                o.check_eq(np.asarray(y.mask.array).tolist(), want_m.tolist(), "mask_roundtrip", f"mask of {coln!r} after an in-place edit")
     if masked:
         o.label("masked")
     o.mark_nontrivial(ncols >= 2 and (masked or lossy_chain))
@@ -1705,7 +2043,7 @@ SUBS = [
         quick=2000,
         thorough=100000,
         rule="length >= 3, >= 2 distinct values and >= 2 encodings, or an element at a type boundary",
-        clauses="decode(encode(x)) == x exactly for every integer chain (inferred and explicit parameters); encodings survive serialisation",
+        clauses="decode(encode(x)) == x exactly for every integer chain (inferred and explicit parameters; contiguous, strided, read-only and big-endian input); encodings survive serialisation",
     ),
     Sub(
         "float_chain",
@@ -1714,7 +2052,7 @@ SUBS = [
         quick=1500,
         thorough=70000,
         rule="as int_chain; non-finite elements count as boundary",
-        clauses="FixedPoint within half a step, IntervalQuantization by the interval rules, ByteArray bit-identical; then any integer chain",
+        clauses="FixedPoint within half a step, IntervalQuantization within one step inside [min, max] (outside: refused, clamped or kept), ByteArray bit-identical; then any integer chain",
     ),
     Sub(
         "string_chain",
@@ -1741,7 +2079,7 @@ SUBS = [
         quick=1000,
         thorough=40000,
         rule="a column of length >= 3 with >= 2 distinct values for which a chain of >= 2 encodings was chosen, or boundary/non-finite elements",
-        clauses="compress() of data/column/category/block/file: ints, strings, masks exact; finite floats within the relative tolerance; non-finite lossless or rejected; terminates",
+        clauses="compress() of data/column/category/block/file (one or several blocks/categories, fresh or read from a file, tolerance positional/keyword/default): ints, strings, masks exact; finite floats within the relative tolerance; non-finite lossless or rejected; terminates",
     ),
     Sub(
         "serialize",
@@ -1781,19 +2119,27 @@ def run_input_forms(case):
         arg = tuple(vals)
     else:
         arg = np.array(vals, dtype=np.int64 if min(vals) < 0 or max(vals) < 2**63 else np.uint64)
-    o.label("form=" + form, "beyond_32bit" if (max(vals) >= 2**31 or min(vals) < -(2**31)) else "within_32bit")
-    # the only accepted outcomes: an exception, or the given values exactly (never wrapped ones)
+    # the values arrive as 64-bit integers, whose documented BinaryCIF type is INT32 (UINT32 for uint64):
+    # whatever lies within int32 has to be accepted
+    holdable = min(vals) >= -(2**31) and max(vals) < 2**31
+    o.label("form=" + form, "beyond_32bit" if (max(vals) >= 2**31 or min(vals) < -(2**31)) else "within_32bit", "holdable" if holdable else "not_holdable")
+    # otherwise the only accepted outcomes: an exception (of any type), or the given values exactly
+    # (never wrapped ones)
     try:
         data = BinaryCIFData(arg)
         held = [int(v) for v in np.asarray(data.array).tolist()]
-    except (ValueError, TypeError, OverflowError):
-        o.label("rejected_at_construction")
+    except Exception as e:  # noqa: BLE001
+        if holdable:
+            raise
+        o.label("rejected_at_construction:" + type(e).__name__)
         o.mark_nontrivial()
         return o
     o.check_eq(held, [int(v) for v in vals], "unrepresentable_rejected_or_lossless", f"BinaryCIFData({form} {vals}).array")
     try:
         back = BinaryCIFData.deserialize(_msgpack_roundtrip(data.serialize()))
     except Exception as e:  # noqa: BLE001 - any refusal is fine, a wrong value is not
+        if holdable:
+            raise
         o.label("rejected_at_serialisation:" + type(e).__name__)
         o.mark_nontrivial()
         return o
@@ -1851,7 +2197,86 @@ def run_string_table(case):
     return o
 
 
+# --------------------------------------------------------------------------
+# long arrays: run lengths and element counts around 2**15 / 2**16 (RunLength output that
+# IntegerPacking has to split, offsets beyond 16 bit)
+# --------------------------------------------------------------------------
+def enum_large_arrays(tier):
+    def chain_case(dtype, segs, chain):
+        return {"kind": "int", "dtype": dtype, "segs": segs, "chain": chain, "explicit": "copy", "narrowed": [], "layout": "plain"}
+
+    B, R, D = ["bytes", {}], ["rle", {}], ["delta", {}]
+
+    def P(k):
+        return ["pack", {"byte_count": k}]
+
+    for k in (32767, 32768, 32769, 65535, 65536, 70000):
+        for dtype, v in (("int32", 5), ("int16", -3), ("uint8", 200)):
+            segs = [["run", v, k], ["lit", [7, 7, 9]]]
+            for chain in ([R, P(2), B], [R, P(1), B], [R, B], [D, R, P(2), B]):
+                yield chain_case(dtype, segs, chain)
+    for n in (32769, 65537, 70000):
+        for chain in ([D, R, P(2), B], [D, P(1), B], [P(2), B], [D, R, B]):
+            yield chain_case("int32", [["ramp", 0, 1, n]], chain)
+            yield chain_case("uint32", [["ramp", 3, 2, n]], chain)
+
+    def compress_case(kind, dtype, segs, tol_exp=3, level="data"):
+        return {
+            "level": level, "tol_exp": tol_exp, "rows": None, "narrowed": [], "tol_form": "positional", "reread": False, "extra": None,
+            "columns": [{"name": "c0", "kind": kind, "dtype": dtype, "segs": segs, "mask": None, "layout": "plain"}],
+        }  # fmt: skip
+
+    for k in (32768, 65536, 70000):
+        yield compress_case("int", "int32", [["run", 5, k], ["lit", [7, 7, 9]]])
+        yield compress_case("int", "int64", [["ramp", -40000, 1, k]])
+        yield compress_case("int", "uint16", [["randint", 11, k, 0, 3]])
+        yield compress_case("float", "float32", [["randcoord", 12, k, 50.0, 3]], tol_exp=4)
+        yield compress_case("float", "float64", [["run", 1.5, k], ["lit", [0.25]]], tol_exp=6)
+        yield compress_case("str", "U", [["run", "ALA", k], ["lit", ["GLY", "", "é"]]], level="column")
+
+
+# --------------------------------------------------------------------------
+# every way of passing the tolerance x every component level, on columns whose digits are all significant
+# --------------------------------------------------------------------------
+def enum_tolerance_forms(tier):
+    cols = [
+        {"name": "c0", "kind": "float", "dtype": "float64", "segs": [["randcoord", 5, 40, 1.0, 9]], "mask": None, "layout": "plain"},
+        {"name": "c1", "kind": "float", "dtype": "float64", "segs": [["randcoord", 6, 40, 900.0, 6]], "mask": [["lit", [0, 1, 0, 2]]], "layout": "plain"},
+        {"name": "c2", "kind": "float", "dtype": "float32", "segs": [["randcoord", 7, 40, 90.0, 3]], "mask": None, "layout": "plain"},
+    ]
+    for level in ("data", "column", "category", "block", "file"):
+        for extra in (None, "both") if level in ("block", "file") else (None,):
+            for reread in (False, True):
+                for form, tol_exp in (("positional", 3), ("positional", 9), ("keyword", 3), ("keyword", 9), ("keyword", 7), ("default", 6)):
+                    columns = [dict(c) for c in (cols[:1] if level in ("data", "column") else cols)]
+                    if level == "data":
+                        columns[0]["mask"] = None
+                    yield {"level": level, "tol_exp": tol_exp, "tol_form": form, "reread": reread, "extra": extra, "rows": None if level in ("data", "column") else 40, "narrowed": [], "columns": columns}
+
+
+def run_large_array(case):
+    o = run_chain(case) if "chain" in case else run_compress(case)
+    o.label("n=" + str(len(expand(case["segs"] if "chain" in case else case["columns"][0]["segs"])) // 1000) + "k")
+    return o
+
+
 ENUMS = [
+    Enum(
+        "compress_tolerance_forms",
+        enum_tolerance_forms,
+        run_compress,
+        rule="float64 columns with 6 and 9 significant decimals: fixed point is chosen and the error shows which tolerance was applied",
+        clauses="compress(component, tol) / compress(component, float_tolerance=tol) / compress(component) on data, column, category, block and file (also after write+read, also with two blocks and categories) keep every float within the tolerance that was passed",
+        exhaustive=True,
+    ),
+    Enum(
+        "large_arrays",
+        enum_large_arrays,
+        run_large_array,
+        rule="arrays of 32767..70000 elements / run lengths: RunLength and Delta outputs that IntegerPacking has to split",
+        clauses="integer chains with RunLength/Delta/IntegerPacking and compress() return long arrays exactly (floats within tolerance)",
+        exhaustive=False,
+    ),
     Enum(
         "int_boundaries",
         enum_int_boundaries,
